@@ -125,7 +125,10 @@ def benign_doc(rng):
         import json
         while '#.' in json.dumps(obj):
             obj = {'k': 'v'}
-        return {'obj': obj, 'encoding': None}
+        m = {'obj': obj, 'encoding': None}
+        if rng.random() < 0.15:
+            m['line_endings'] = rng.choice(['dos', 'unix'])
+        return m
 
     def diff():
         if rng.random() < 0.15:
